@@ -63,7 +63,7 @@ func c08ValidateDominates(c *Ctx, rule string) {
 	vals := f.Calls(f.Decl.Body, false, "storage.FieldDef.Validate")
 	var sw *ast.SwitchStmt
 	inspectBody(f.Decl.Body, func(x ast.Node) bool {
-		if s, ok := x.(*ast.SwitchStmt); ok && sw == nil {
+		if s, ok := x.(*ast.SwitchStmt); ok && sw == nil && s.Tag != nil {
 			sw = s
 		}
 		return true
@@ -138,6 +138,9 @@ func c08ValidateDominates(c *Ctx, rule string) {
 // rejectInterval: cond rejects v when true; returns accepted [lo, hi] as big ints (nil = unbounded).
 func rejectInterval(f *Func, cond ast.Expr, lo, hi *constant.Value) bool {
 	e := ast.Unparen(cond)
+	if u, ok := e.(*ast.UnaryExpr); ok && u.Op == token.NOT {
+		e = ast.Unparen(negateExpr(u.X)) // !(a <= hi && a >= lo) rejects a > hi || a < lo
+	}
 	be, ok := e.(*ast.BinaryExpr)
 	if !ok {
 		return false
